@@ -170,8 +170,8 @@ class MLETomographyAlgorithm:
             # Optimise alpha weighting parameter
             alpha = 0.5
             new_cost = self._cost(choi + alpha * mod, n_vec)
-            thresh_value = gamma * np.trace(
-                mod @ np.conj(self._gradient(choi.T, n_vec))
+            thresh_value = gamma * np.real(
+                np.trace(np.conj(mod.T) @ self._gradient(choi, n_vec))
             )
             while new_cost > current_cost + alpha * thresh_value:
                 alpha *= 0.5
